@@ -41,6 +41,7 @@ type IP struct {
 	Labels []IL `gorm:"polymorphic:Owner;polymorphicValue:xp;foreignKey:Code"`
 	Cover  *IC  `gorm:"polymorphic:Owner;polymorphicValue:xp;foreignKey:Code"`
 	Subs   []IU `gorm:"foreignKey:PCode;references:Code"`
+	CTags  []IH `gorm:"many2many:ip_ctags;foreignKey:Code;joinForeignKey:OwnerCode;references:Code;joinReferences:TagCode"`
 }
 type IO struct {
 	Lbl *string // nullable column declared BEFORE the key: the first column of a joined row can be NULL
@@ -88,6 +89,7 @@ type SP struct {
 	Labels []SL `gorm:"polymorphic:Owner;polymorphicValue:xp;foreignKey:Code"`
 	Cover  *SC  `gorm:"polymorphic:Owner;polymorphicValue:xp;foreignKey:Code"`
 	Subs   []SU `gorm:"foreignKey:PCode;references:Code"`
+	CTags  []SH `gorm:"many2many:sp_ctags;foreignKey:Code;joinForeignKey:OwnerCode;references:Code;joinReferences:TagCode"`
 }
 type SO struct {
 	Lbl *string // nullable column declared BEFORE the key: the first column of a joined row can be NULL
@@ -412,4 +414,17 @@ type DN struct {
 	Base
 	OID  *uint
 	Kind string
+}
+
+// many2many whose join table references NON-primary unique columns on both sides (families I and S):
+// owner.Code <- join.owner_code, join.tag_code -> XH.Code, while XH's primary key is ID.
+type IH struct {
+	ID   uint   `gorm:"primaryKey"`
+	Code string `gorm:"uniqueIndex"`
+	Base
+}
+type SH struct {
+	ID   uint   `gorm:"primaryKey"`
+	Code string `gorm:"uniqueIndex"`
+	Base
 }
